@@ -51,7 +51,7 @@ def dictSet {β} (k : Nat) (v : β) : List (Nat × β) → List (Nat × β)
 
 def dictDel {β} (k : Nat) : List (Nat × β) → List (Nat × β)
   | [] => []
-  | (k', v') :: r => if k' = k then r else (k', v') :: dictDel k r
+  | (k', v') :: r => if k' = k then dictDel k r else (k', v') :: dictDel k r
 
 /-- `m[Offset(e, d)]` -/
 def OMap.getO (m : OMap) (e d : Nat) : Except AdtErr Nat :=
@@ -155,19 +155,21 @@ def BOrd.primitiveInsert (o : BOrd) (after : Option Nat) (bs : List Nat) : Excep
     | some a => if o.mem a then .ok (o.insertLoop (some a) bs) else .error .keyError
     | none => .ok (o.insertLoop none bs)
 
+/-- `LinkedListNode.unlink` + `self.__order.pop(block)` -/
+def BOrd.removeCore (o : BOrd) (b : Nat) : BOrd :=
+  let p := o.prev b
+  let n := o.next b
+  let next1 := match p with
+    | some p => fset o.next p n
+    | none => o.next
+  let prev1 := match n with
+    | some n => fset o.prev n p
+    | none => o.prev
+  { mem := fset o.mem b false, prev := fset prev1 b none, next := fset next1 b none }
+
 /-- `remove_block`: `self.__order.pop(block).unlink()` -/
 def BOrd.remove (o : BOrd) (b : Nat) : Except AdtErr BOrd :=
-  if o.mem b then
-    let p := o.prev b
-    let n := o.next b
-    let next1 := match p with
-      | some p => fset o.next p n
-      | none => o.next
-    let prev1 := match n with
-      | some n => fset o.prev n p
-      | none => o.prev
-    .ok { mem := fset o.mem b false, prev := fset prev1 b none, next := fset next1 b none }
-  else .error .keyError
+  if o.mem b then .ok (o.removeCore b) else .error .keyError
 
 def BOrd.adjacent (o : BOrd) (b : Nat) : Except AdtErr (Option Nat × Option Nat) :=
   if o.mem b then .ok (o.prev b, o.next b) else .error .keyError
@@ -214,7 +216,7 @@ def sdPut (k : CfgNode) (v : List Edge) : SetDict → SetDict
 
 def sdDel (k : CfgNode) : SetDict → SetDict
   | [] => []
-  | (k', v') :: r => if k' = k then r else (k', v') :: sdDel k r
+  | (k', v') :: r => if k' = k then sdDel k r else (k', v') :: sdDel k r
 
 /-- `setdict[key].add(value)` -/
 def sdAdd (d : SetDict) (k : CfgNode) (e : Edge) : SetDict :=
